@@ -142,3 +142,14 @@ Print Assumptions C13_terminates_progress_worker.
 Print Assumptions C13_terminates_variant.
 Print Assumptions C13_terminates_env.
 Print Assumptions C13_matcher_steps_are_runs.
+
+(* ---- the correspondence check's (reduced) history matcher is sound for this model (Conc/ParDoMatcher.v):
+        every accepted history is the visible trace of a run of the unreduced model ---- *)
+From Juniper Require Conc.GoLTSProofs Conc.ParDoMatcher.
+
+Theorem C13_matcher_sound : forall c gated evs,
+    accepts_history c gated evs = true ->
+    exists ls s, run qstep (init c gated) ls = Some s /\ ParDoMatcher.pardo_trace ls = evs.
+Proof. exact ParDoMatcher.pardo_accepts_sound. Qed.
+
+Print Assumptions C13_matcher_sound.
